@@ -48,7 +48,8 @@ def harness_cmds(cfile, h, outdir, reach=False, extra_defs=(), tag_=''):
     lc = h.get('loopcontracts', h.get('loops', '1'))      # 'loops=0' is an alias of 'loopcontracts=0': plain cbmc, no DFCC instrumentation
     if enforce != 'none' or h.get('replace') or lc != '0':
         gi = ['goto-instrument', '--dfcc', name]
-        if enforce != 'none': gi += ['--enforce-contract', enforce]
+        # rec=1: the function under contract calls itself -- DFCC then checks the body with the recursive calls replaced by the contract
+        if enforce != 'none': gi += ['--enforce-contract-rec' if h.get('rec') == '1' else '--enforce-contract', enforce]
         for r in [x for x in h.get('replace', '').split(',') if x]:
             gi += ['--replace-call-with-contract', r]
         if lc != '0': gi += ['--apply-loop-contracts']
